@@ -65,6 +65,7 @@ type blkJob struct {
 	BoundMs   int        `json:"bound_ms"`  // O3 bound
 	TickMs    int        `json:"tick_ms"`   // initial distance of a deadline that the schedule lets pass
 	WakeTries int        `json:"wake_tries"`
+	KnownWake bool       `json:"known_wake"` // finding wakeup-bare-send is listed: record it, do not report it
 }
 
 type blkObs map[string]interface{}
@@ -110,6 +111,8 @@ type blkResult struct {
 	EosWithData  int            `json:"eos_with_data"`
 	EosWitness   string         `json:"eos_witness"`
 	TimingRetry  int            `json:"timing_retries"`
+	WakeStuck    int            `json:"wake_stuck"`
+	WakeWitness  string         `json:"wake_witness"`
 }
 
 // ---------------------------------------------------------------- goroutine states
@@ -419,29 +422,29 @@ func blkSend(p *vpPair, st *Stream, n int, seq *int) error {
 
 type blkReadWorld struct {
 	*blkWorld
-	pair     *vpPair
-	as, bs   *Stream // client end / server end (the reader's) of the stream
-	R, D, C  *blkThr
-	seq      int // next byte value the peer writes
-	consumed int // bytes the reader has been given
-	now      int
-	rd       int
-	sess     string
-	dpc, cpc string
-	peerCl   bool
-	deadline time.Time // real deadline of the current read (zero: none)
-	near     bool      // the schedule lets this deadline pass
-	dlTick   int
+	pair      *vpPair
+	as, bs    *Stream // client end / server end (the reader's) of the stream
+	R, D, C   *blkThr
+	seq       int // next byte value the peer writes
+	consumed  int // bytes the reader has been given
+	now       int
+	rd        int
+	sess      string
+	dpc, cpc  string
+	peerCl    bool
+	deadline  time.Time // real deadline of the current read (zero: none)
+	near      bool      // the schedule lets this deadline pass
+	dlTick    int
 	accounted bool
 	timingBad string
 	seenGate  *vsGateT
-	lastRes  string
-	lastErr  error
-	lastN    int
-	retAt    time.Time
-	mvHits   int
-	stHits   int
-	tickD    time.Duration
+	lastRes   string
+	lastErr   error
+	lastN     int
+	retAt     time.Time
+	mvHits    int
+	stHits    int
+	tickD     time.Duration
 }
 
 func (w *blkReadWorld) pendBytes() int {
@@ -935,6 +938,8 @@ func TestVS_Blocking(t *testing.T) {
 			res.Runs = append(res.Runs, blkRunFlush(&job, sc, res))
 		case "accept":
 			res.Runs = append(res.Runs, blkRunAccept(&job, sc, res))
+		case "send":
+			res.Runs = append(res.Runs, blkRunSend(&job, sc, res, job.KnownWake))
 		}
 		if len(res.Violations) >= 5 {
 			break
@@ -948,23 +953,23 @@ func TestVS_Blocking(t *testing.T) {
 
 type blkFlushWorld struct {
 	*blkWorld
-	pair     *vpPair
-	as, bs   *Stream // the stream under test: client end (the flusher's) and server end
-	hs       *Stream // helper stream used to fill the queue
-	F        *blkThr
-	seq      int
-	now      int
-	deadline time.Time
-	near     bool
-	lastRes  string
-	lastErr  error
-	retAt    time.Time
-	startAt  time.Time
-	puts     int
-	seenGate *vsGateT
-	done     bool
-	tickD    time.Duration
-	sessCl   bool
+	pair      *vpPair
+	as, bs    *Stream // the stream under test: client end (the flusher's) and server end
+	hs        *Stream // helper stream used to fill the queue
+	F         *blkThr
+	seq       int
+	now       int
+	deadline  time.Time
+	near      bool
+	lastRes   string
+	lastErr   error
+	retAt     time.Time
+	startAt   time.Time
+	puts      int
+	seenGate  *vsGateT
+	done      bool
+	tickD     time.Duration
+	sessCl    bool
 	timingBad string
 }
 
@@ -1342,6 +1347,407 @@ func blkRunAccept(job *blkJob, sc *blkSched, res *blkResult) blkRun {
 	}
 	if w.inc != "" {
 		res.Inconclusive = append(res.Inconclusive, w.inc)
+	}
+	return run
+}
+
+// ================================================================= mode "send"
+
+// blkConn: the event connection of the session under test. It records what is written like vpConn, and can behave like
+// a socket whose peer has stopped reading (send buffer full): write then waits exactly like connEventHandler.write
+// waits for EPOLLOUT (onWriteReadyCh) and fails with EPIPE once the connection is closed.
+type blkConn struct {
+	*vpConn
+	mu       sync.Mutex
+	blocked  bool
+	wake     chan struct{}
+	closedCh chan struct{}
+	once     sync.Once
+	inWrite  int32
+	payloads int32 // writes that carried the waiter's marker
+}
+
+func (c *blkConn) write(data []byte) error {
+	atomic.AddInt32(&c.inWrite, 1)
+	defer atomic.AddInt32(&c.inWrite, -1)
+	for {
+		c.mu.Lock()
+		b, ch := c.blocked, c.wake
+		c.mu.Unlock()
+		select {
+		case <-c.closedCh:
+			return syscall.EPIPE
+		default:
+		}
+		if !b {
+			break
+		}
+		select {
+		case <-ch:
+		case <-c.closedCh:
+			return syscall.EPIPE
+		}
+	}
+	if len(data) == 7 && string(data) == "blkmine" {
+		atomic.AddInt32(&c.payloads, 1)
+	}
+	return c.vpConn.write(data)
+}
+func (c *blkConn) writev(data ...[]byte) error {
+	for _, d := range data {
+		if err := c.write(d); err != nil {
+			return err
+		}
+	}
+	return nil
+}
+func (c *blkConn) close() error {
+	c.once.Do(func() { close(c.closedCh) })
+	return c.vpConn.close()
+}
+func (c *blkConn) setBlocked(b bool) {
+	c.mu.Lock()
+	c.blocked = b
+	close(c.wake)
+	c.wake = make(chan struct{})
+	c.mu.Unlock()
+}
+
+type blkSendWorld struct {
+	*blkWorld
+	pair    *vpPair
+	conn    *blkConn
+	W, K    *blkThr
+	ks      *Stream
+	now     int
+	sess    string
+	wblk    bool
+	wRes    string
+	wErr    error
+	wStart  time.Time
+	wRet    time.Time
+	wDone   bool
+	kDone   bool
+	kErr    error
+	cwt     time.Duration
+	near    bool
+	timingB string
+	knownWk bool
+	kStuck  bool
+}
+
+func (w *blkSendWorld) setup() error {
+	var err error
+	if w.pair, err = blkNewPair(8); err != nil {
+		return err
+	}
+	s := w.pair.A
+	w.conn = &blkConn{vpConn: w.pair.connA, wake: make(chan struct{}), closedCh: make(chan struct{}), blocked: true}
+	s.eventConn = w.conn
+	s.config.ConnectionWriteTimeout = w.cwt
+	w.sess, w.wblk, w.wRes = "up", true, "none"
+	if w.ks, err = s.OpenStream(); err != nil {
+		return err
+	}
+	// the send loop takes a foreign entry and blocks in the write (the peer does not read)
+	s.sendCh <- sendReady{Body: pollingEventWithVersion[s.communicationVersion]}
+	for k := 0; atomic.LoadInt32(&w.conn.inWrite) == 0; k++ {
+		if k > 20000 {
+			return fmt.Errorf("send loop did not reach the blocked write")
+		}
+		time.Sleep(100 * time.Microsecond)
+	}
+	// SPre foreign entries wait; fillers make the real free capacity equal to the specification's (SCap - SPre)
+	n := cap(s.sendCh) - w.sc.SCap + w.sc.SPre
+	for i := 0; i < n; i++ {
+		s.sendCh <- sendReady{Body: pollingEventWithVersion[s.communicationVersion]}
+	}
+	return nil
+}
+
+func (w *blkSendWorld) tpos(th *blkThr) string {
+	if th == nil {
+		return "idle"
+	}
+	if th.finished() {
+		return "done"
+	}
+	if b, _ := th.blocked(); b {
+		return "blocked"
+	}
+	return "run"
+}
+
+func (w *blkSendWorld) obs() blkObs {
+	s := w.pair.A
+	wp := w.tpos(w.W)
+	if wp == "done" {
+		wp = "idle"
+	}
+	return blkObs{"wpos": wp, "res": w.wRes, "kpos": w.tpos(w.K), "full": len(s.sendCh) == cap(s.sendCh), "sess": w.sess,
+		"wblk": w.wblk, "now": w.now}
+}
+
+func (w *blkSendWorld) sync() {
+	if w.W != nil && w.W.finished() && !w.wDone {
+		w.wDone = true
+		switch {
+		case w.wErr == nil:
+			w.wRes = "nil"
+			if atomic.LoadInt32(&w.conn.payloads) == 0 {
+				w.fail("nil-without-data", "waitForSend returned nil although its data was not written to the connection")
+			}
+		case w.wErr == ErrConnectionWriteTimeout:
+			w.wRes = "timeout"
+			if w.wRet.Sub(w.wStart) < w.cwt {
+				w.fail("timeout-early", fmt.Sprintf("waitForSend returned ErrConnectionWriteTimeout after %v, ConnectionWriteTimeout is %v",
+					w.wRet.Sub(w.wStart), w.cwt))
+			} else if w.near && w.now < w.sc.CWT {
+				w.timingB = "real write timeout passed while the schedule's clock was still before it"
+			}
+		case w.wErr == syscall.EPIPE:
+			w.wRes = "writeerr"
+		default:
+			w.wRes = "shutdown"
+			if !w.pair.A.IsClosed() {
+				w.fail("error-without-cause", "waitForSend returned "+w.wErr.Error()+" on a live session")
+			}
+		}
+		w.res.Returns["send:"+w.wRes]++
+		if w.W.panicV != nil {
+			w.fail("panic", fmt.Sprintf("waitForSend panicked: %v", w.W.panicV))
+		}
+	}
+	if w.K != nil && w.K.finished() && !w.kDone {
+		w.kDone = true
+		w.res.Returns["wakeup:"+blkErrName(w.kErr)]++
+	}
+}
+
+// quiesce: wait until W and K are finished or blocked, and the send loop has done what it can
+func (w *blkSendWorld) quiesce() {
+	s := w.pair.A
+	t0 := time.Now()
+	stable := 0
+	last := -1
+	for time.Since(t0) < w.bound {
+		ok := true
+		for _, th := range []*blkThr{w.W, w.K} {
+			if th != nil && !th.finished() {
+				if b, _ := th.blocked(); !b {
+					ok = false
+				}
+			}
+		}
+		n := len(s.sendCh)
+		loopBusy := atomic.LoadInt32(&w.conn.inWrite) > 0 && !(w.wblk && w.sess != "down")
+		if ok && !loopBusy && n == last {
+			stable++
+			if stable >= 3 {
+				return
+			}
+		} else {
+			stable = 0
+		}
+		last = n
+		time.Sleep(300 * time.Microsecond)
+	}
+}
+
+func (w *blkSendWorld) ticksAhead(from int) bool {
+	now := w.now
+	for i := from; i < len(w.sc.Steps); i++ {
+		if w.sc.Steps[i].A == "STick" {
+			now++
+			if now >= w.sc.CWT {
+				return true
+			}
+		}
+	}
+	return false
+}
+
+func (w *blkSendWorld) step(i int, s blkStep) (bool, string) {
+	if w.near && w.now < w.sc.CWT && w.W != nil && !w.W.finished() && time.Until(w.wStart.Add(w.cwt)) < 3*time.Millisecond {
+		return false, fmt.Sprintf("real write timeout reached before step %d", i)
+	}
+	switch s.A {
+	case "SStart":
+		if w.W != nil {
+			return true, ""
+		}
+		w.near = w.ticksAhead(i + 1)
+		if !w.near {
+			// the schedule never lets the timeout pass: make it far away
+			w.pair.A.config.ConnectionWriteTimeout = time.Hour
+			w.cwt = time.Hour
+		}
+		w.W = blkSpawn("sender", "waitForSendErr", func() {
+			w.wStart = time.Now()
+			w.wErr = w.pair.A.waitForSend(nil, []byte("blkmine"))
+			w.wRet = time.Now()
+		})
+		w.W.start()
+	case "KStart":
+		if w.K != nil || atomic.LoadInt32(&w.conn.inWrite) == 0 {
+			return true, ""
+		}
+		if w.sess == "down" {
+			return true, "" // the teardown has closed the stream: Flush fails at its entry, wakeUpPeer is not reached
+		}
+		ks := w.ks
+		ks.BufferWriter().WriteBytes([]byte{7})
+		w.K = blkSpawn("flusher", "wakeUpPeer", func() { w.kErr = ks.Flush(false) })
+		w.K.start()
+	case "SUnblock":
+		if !w.wblk {
+			return true, ""
+		}
+		w.wblk = false
+		w.conn.setBlocked(false)
+	case "SSessClose":
+		if w.sess != "up" {
+			return true, ""
+		}
+		w.pair.A.Close()
+		w.sess = "closed"
+	case "SSessLambda":
+		if w.sess != "closed" {
+			return true, ""
+		}
+		w.pair.dispA.run()
+		w.sess = "down"
+		w.wblk = false
+	case "STick":
+		w.now++
+		if w.near && w.now >= w.sc.CWT && w.W != nil && !w.W.finished() {
+			dl := w.wStart.Add(w.cwt)
+			if time.Until(dl) < time.Millisecond {
+				return false, "real write timeout passed before the tick that lets it pass"
+			}
+			w.near = false
+			time.Sleep(time.Until(dl) + 3*time.Millisecond)
+			// O1: the timer arm is always there - the call must be back within the bound
+			select {
+			case <-w.W.done:
+			case <-time.After(w.bound):
+				st, _ := blkStatus(atomic.LoadInt64(&w.W.gid))
+				w.fail("blocked-forever", fmt.Sprintf("waitForSend (goroutine state %q) still blocked %v after ConnectionWriteTimeout", st, w.bound))
+			}
+		}
+	default:
+		return true, "" // steps of the send loop and of the waiters themselves
+	}
+	w.quiesce()
+	return false, ""
+}
+
+func blkRunSend(job *blkJob, sc *blkSched, res *blkResult, known bool) blkRun {
+	run := blkRun{Name: sc.Name, Events: []blkEvent{}}
+	for attempt := 0; attempt < 3; attempt++ {
+		run.Attempts = attempt + 1
+		run.Events = run.Events[:0]
+		run.Skipped = 0
+		run.Timing = ""
+		w := &blkSendWorld{blkWorld: &blkWorld{res: res, job: job, sc: sc, bound: time.Duration(job.BoundMs) * time.Millisecond},
+			cwt: time.Duration(job.TickMs<<(2*uint(attempt))) * 2 * time.Millisecond}
+		vsReset(vsOff)
+		if err := w.setup(); err != nil {
+			res.Inconclusive = append(res.Inconclusive, sc.Name+": setup: "+err.Error())
+			return run
+		}
+		run.Events = append(run.Events, blkEvent{A: "Init", Obs: w.obs()})
+		for i, s := range sc.Steps {
+			w.at = i
+			skipped, timing := w.step(i, s)
+			if timing != "" {
+				run.Timing = timing
+				break
+			}
+			if skipped {
+				run.Skipped++
+				continue
+			}
+			res.Steps++
+			w.sync()
+			if w.timingB != "" {
+				run.Timing = w.timingB
+				break
+			}
+			run.Events = append(run.Events, blkEvent{A: s.A, K: s.K, Obs: w.obs()})
+			if w.viol != nil || w.inc != "" {
+				break
+			}
+		}
+		// end of schedule: the session dies if it has not yet; afterwards nobody may stay blocked
+		if w.viol == nil && run.Timing == "" {
+			if w.sess == "up" {
+				w.pair.A.Close()
+				w.sess = "closed"
+			}
+			if w.sess == "closed" {
+				w.pair.dispA.run()
+				w.sess = "down"
+				w.wblk = false
+			}
+			w.quiesce()
+			w.sync()
+			if w.W != nil && !w.W.finished() {
+				select {
+				case <-w.W.done:
+					w.sync()
+				case <-time.After(w.bound):
+					st, _ := blkStatus(atomic.LoadInt64(&w.W.gid))
+					w.fail("blocked-forever", fmt.Sprintf("waitForSend (goroutine state %q) still blocked %v after the session was closed and torn down", st, w.bound))
+				}
+			}
+			if w.K != nil && !w.K.finished() {
+				// the send loop needs no more than milliseconds to drain or leave; give the blocked sender 1.5 s
+				t0 := time.Now()
+				for time.Since(t0) < 1500*time.Millisecond && !w.K.finished() {
+					time.Sleep(2 * time.Millisecond)
+				}
+				if !w.K.finished() {
+					b, st := w.K.blocked()
+					detail := fmt.Sprintf("Stream.Flush is blocked for ever in the slow path of Session.wakeUpPeer (goroutine state %q, blocked=%v): "+
+						"sendCh is full (%d/%d), the session is closed and torn down, the send loop has exited, nothing will ever "+
+						"receive from sendCh", st, b, len(w.pair.A.sendCh), cap(w.pair.A.sendCh))
+					w.kStuck = true
+					res.WakeStuck++
+					if res.WakeWitness == "" {
+						js, _ := json.Marshal(sc.Steps)
+						res.WakeWitness = sc.Name + ": " + detail + "; steps " + string(js)
+					}
+					if !known {
+						w.fail("blocked-forever", detail)
+					}
+					// free the goroutine
+					for len(w.pair.A.sendCh) > 0 {
+						<-w.pair.A.sendCh
+					}
+				}
+			}
+		}
+		w.conn.setBlocked(false)
+		for _, th := range []*blkThr{w.W, w.K} {
+			if th != nil {
+				select {
+				case <-th.done:
+				case <-time.After(2 * time.Second):
+				}
+			}
+		}
+		w.pair.destroy()
+		if w.viol != nil {
+			res.Violations = append(res.Violations, *w.viol)
+		}
+		if w.inc != "" {
+			res.Inconclusive = append(res.Inconclusive, w.inc)
+		}
+		if run.Timing == "" {
+			break
+		}
+		res.TimingRetry++
 	}
 	return run
 }
